@@ -12,7 +12,7 @@ check("C03", "bfs",
       "DESIGN.md §4 C03")
 
 ENGINES += [
-    dict(name="vsched", path="engine/vsched", serves_properties=["C18"], kind_free_text="cooperative scheduler + stateless DFS over schedules of the real code (iterative preemption / deviation bounding, data-choice points, exact quiescence, deadlock = leak detection, replay with divergence check)"),
+    dict(name="vsched", path="engine/vsched", serves_properties=["C18"], kind_free_text="cooperative scheduler + stateless DFS over schedules of the real code (iterative preemption / deviation bounding, data-choice points, exact quiescence, deadlock = leak detection, replay with divergence check; buffered channels by len/cap, unbuffered channels as a sender-initiated rendezvous)"),
     dict(name="rewrite+vsync+vtime", path="engine/rewrite", serves_properties=["C18"], kind_free_text="go/ast rewriter producing a -overlay that maps sync->vsync and makes goroutines/channel ops/selects/timers of peer.go visible to vsched; regenerated from the current tree on every run"),
 ]
 
